@@ -408,6 +408,7 @@ type hRunOpts struct {
 	optimized bool
 	classOf   func(rule int) string // how reductions are recorded (rule or rule class)
 	maxSteps  int
+	visited   *[]int // when set: receives every state pushed on the stack, in order
 }
 
 func (t *Tables) hAction(state int, next func(k int) int, o hRunOpts) (int, string) {
@@ -525,6 +526,9 @@ func (t *Tables) hRun(g *Grammar, in int, w []Sym, o hRunOpts) (tr hTrace) {
 			stack = stack[:len(stack)-ln]
 			state = t.hGoto(stack[len(stack)-1], t.RuleSymbol[rule], terms, o)
 			stack = append(stack, state)
+			if o.visited != nil {
+				*o.visited = append(*o.visited, state)
+			}
 			if o.classOf != nil {
 				tr.events = append(tr.events, "r"+o.classOf(rule))
 			} else {
@@ -538,6 +542,9 @@ func (t *Tables) hRun(g *Grammar, in int, w []Sym, o hRunOpts) (tr hTrace) {
 			}
 			if state >= 0 {
 				stack = append(stack, state)
+				if o.visited != nil {
+					*o.visited = append(*o.visited, state)
+				}
 				tr.events = append(tr.events, fmt.Sprintf("s%d", next(0)))
 				if next(0) != 0 {
 					pos++
